@@ -1,7 +1,7 @@
 """C20 — configuration is honoured."""
 import re
 from rules.shared import SPEC
-from rulelib import walk, nonpanic, path_sig, event_strs, where, depth_limit, canon, match_table
+from rulelib import walk, nonpanic, path_sig, event_strs, where, depth_limit, canon, match_table, variant_table
 from pathwalk import const_val
 
 import witness
@@ -23,14 +23,16 @@ def run(ctx):
     A = ctx.A
     ctx.rule("C20-R1", "bind presets and socket creation")
     ipnames = {"127.0.0.1": "Ipv4Addr::LOCALHOST", "::1": "Ipv6Addr::LOCALHOST", "0.0.0.0": "Ipv4Addr::UNSPECIFIED", "::": "Ipv6Addr::UNSPECIFIED"}
+    presets = [v["name"] for v in A.adt(C + "IpBindConfig")["variants"]]
+    ctx.check("C20-R1", "IpBindConfig variants == documented presets", sorted(presets) == sorted(SPEC["bind_presets"]), "IpBindConfig has variants %s, documented presets %s" % (sorted(presets), sorted(SPEC["bind_presets"])))
     f = A.fn(C + "IpBindConfig::into_ip")
-    got = {path_sig(p)[0][0].split(" is ")[-1]: path_sig(p)[1] for p in nonpanic(walk(f))}
+    got = {v: sorted({path_sig(p)[1] for p in ps}) for v, ps in variant_table(nonpanic(walk(f)), presets).items()}
     for preset, (ip, ds) in SPEC["bind_presets"].items():
-        ctx.check("C20-R1", "into_ip[%s]" % preset, got.get(preset) == "return " + ipnames[ip], "IpBindConfig::%s binds %s, documented address is %s" % (preset, got.get(preset), ip), where(f))
+        ctx.check("C20-R1", "into_ip[%s]" % preset, got.get(preset) == ["return " + ipnames[ip]], "IpBindConfig::%s binds %s, documented address is %s" % (preset, got.get(preset), ip), where(f))
     f = A.fn(C + "IpBindConfig::into_dual_stack_config")
-    got = {path_sig(p)[0][0].split(" is ")[-1]: path_sig(p)[1] for p in nonpanic(walk(f))}
+    got = {v: sorted({path_sig(p)[1] for p in ps}) for v, ps in variant_table(nonpanic(walk(f)), presets).items()}
     for preset, (ip, ds) in SPEC["bind_presets"].items():
-        ctx.check("C20-R1", "into_dual_stack_config[%s]" % preset, got.get(preset) == "return Ipv6DualStackConfig::" + ds, "IpBindConfig::%s dual-stack mode is %s, documented %s" % (preset, got.get(preset), ds), where(f))
+        ctx.check("C20-R1", "into_dual_stack_config[%s]" % preset, got.get(preset) == ["return Ipv6DualStackConfig::" + ds], "IpBindConfig::%s dual-stack mode is %s, documented %s" % (preset, got.get(preset), ds), where(f))
     for cname, dom in (("socket2::Domain::IPV4", 2), ("socket2::Domain::IPV6", 10)):
         pass
     f = A.fn(C + "BindAddressConfig::bind_socket")
